@@ -148,6 +148,13 @@ var propSpecs = map[string]*PropSpec{
 		Sweep:       []string{modInternal + "language/tokenizer", modInternal + "language/compiler", modInternal + "language/bytecode"},
 		Extra:       c07Extra,
 	},
+	"C15": {
+		Patterns:    []string{"./..."},
+		Level:       "proof",
+		Explanation: "both SQL endpoints run a statement only after every table usage sqlparse.Tables() reports was answered yes by the check matching its usage (read -> ego.table.read, write -> the permission of the statement's verb, admin -> DSN-administrator authority) and, for every schema-changing verb, DSN-administrator authority was confirmed (loop contracts on authorizeStatement / authorizeAndClassifySQL and their callers); Tables() itself is decided structurally from go/types on every run: every node-bearing field of every AST type is handed to nodes() by that type's Children(), every node-bearing field of every statement type is walked or recorded by Tables() (or is on the justified exemption list), the walk's callback records every TableRef unconditionally; a bounded corpus of generated statements cross-checks Tables() against a reflection walk on the real code",
+		TrustedBase: []string{"the SQL parser accepts exactly one statement and the text executed is the text parsed (Format preserves the statement: C16)", "ast.Walk visits every node Children() yields and nodes() keeps every non-nil Node and []Node argument (exercised by the bounded corpus, not proved)", "exempt expression positions (CREATE TABLE column and table constraints, ALTER TABLE actions, CREATE INDEX columns): SQLite and PostgreSQL reject subqueries there and the statement needs DSN-administrator authority anyway", "Authorized answers for the grant table (C43)"},
+		Extra:       c15Extra,
+	},
 	"C27": {
 		Patterns: []string{"./..."},
 		Level:    "proof",
